@@ -114,6 +114,14 @@ static int runScript(int b, size_t klen, const char* script)
 			case B_HMAC: beltHMACStepG(g->tag, st); g->tlen = 32; break;
 			default: break;
 			}
+			if (g->tlen && (b == B_MAC || b == B_HASH || b == B_HMAC))
+			{	/* truncated tags: StepG2 gives the prefix of the full value, StepV2 accepts exactly it */
+				octet t2[32], t3[32]; size_t tl = 1 + (inl + hl + ng) % g->tlen; bool_t a1, a2;
+				if (b == B_MAC) { beltMACStepG2(t2, tl, st); memcpy(t3, t2, tl); t3[tl - 1] ^= 0x80; a1 = beltMACStepV2(t2, tl, st); a2 = beltMACStepV2(t3, tl, st); }
+				else if (b == B_HASH) { beltHashStepG2(t2, tl, st); memcpy(t3, t2, tl); t3[tl - 1] ^= 0x80; a1 = beltHashStepV2(t2, tl, st); a2 = beltHashStepV2(t3, tl, st); }
+				else { beltHMACStepG2(t2, tl, st); memcpy(t3, t2, tl); t3[tl - 1] ^= 0x80; a1 = beltHMACStepV2(t2, tl, st); a2 = beltHMACStepV2(t3, tl, st); }
+				if (memcmp(t2, g->tag, tl) != 0 || !a1 || a2) ++vbad;
+			}
 			if (g->tlen && c == 'V')
 			{
 				memcpy(bad, g->tag, g->tlen); bad[vxRandN(g->tlen)] ^= (octet)(1u << vxRandN(8));
